@@ -38,7 +38,7 @@ def value_lists(tier, rnd):
     for k in (1, 2, 3):
         for t in itertools.product(ALPH, repeat=k):
             ls.append(list(t))
-    extra = [["foo-bar", "foo_bar"], ["a2", "a", "A"], [3, 4], [1, "1"], [True, False], ["on", "Off", "ON"], ["x{}y"], ["type", "match"],
+    extra = [["us", "US", "us1"], ["a", "A", "a1", "A1"], ["ab", "AB", "Ab", "ab2", "ab3"], ["foo-bar", "foo_bar"], ["a2", "a", "A"], [3, 4], [1, "1"], [True, False], ["on", "Off", "ON"], ["x{}y"], ["type", "match"],
              ["A", "a", "A1"], ["", "none"], [-1, 1], ["a", "a"], ["Ärger", "x"], ["É", "é", "e"], ["Über", "über"]]
     return ls, extra
 
@@ -114,7 +114,9 @@ def main(tier, seed, replay=None):
                 dis.append(f"values {vals} mode {m}: impl {ev} model {mv}")
         names = [n for n, _, _ in ev]
         if len(set(names)) != len(names):
-            if m == "preserve":
+            if m == "preserve" and (model is None or not ascii_only or mv == ev):
+                # the recorded class: the invented `<Name><index>` equals an EARLIER value's own name — exactly what
+                # the model of the unchanged algorithm predicts; any other duplicate is a new failure
                 known_hits.add("preserve-index-collision")
             else:
                 viol.append((vals, f"values {vals} mode {m}: duplicate variants {names}"))
